@@ -2,6 +2,7 @@ package jet
 
 import (
 	"reflect"
+	"time"
 )
 
 // ---- C05: if renders exactly one branch; range runs once per element, else iff empty ----
@@ -704,4 +705,53 @@ func c05InnerWant(kind, place int, c1, c2 bool, n int, dot string) string {
 		}
 	}
 	return w
+}
+
+// H_C05_chanProducer: range over a channel whose producer is still running: the channel is
+// unbuffered or buffered (capacity 0..2), some elements are already in the buffer, the rest
+// is sent - and the channel closed - by a goroutine that only gets going while the range is
+// waiting. The body runs once per element sent, in order, until the channel is closed; the
+// else branch only for a channel closed without elements.
+//
+//gosym:reach rendered
+func H_C05_chanProducer() {
+	capn := ndChoice("cap", 3)
+	pre := ndChoice("prefilled", capn+1)
+	total := ndChoice("total", 4)
+	vfAssume(pre <= total)
+	form := ndChoice("form", 3)
+	ch := make(chan int, capn)
+	for i := 0; i < pre; i++ {
+		ch <- i + 1
+	}
+	go func() {
+		if !vfSymbolic() {
+			time.Sleep(30 * time.Millisecond) // natively: let the range get to the channel first
+		}
+		for i := pre; i < total; i++ {
+			ch <- i + 1
+		}
+		close(ch)
+	}()
+	src := []string{
+		`{{ range v := ch }}[{{ v }}]{{ else }}E{{ end }}`,
+		`{{ range ch }}[{{ . }}]{{ else }}E{{ end }}`,
+		`{{ range one }}{{ range v := ch }}[{{ v }}]{{ else }}E{{ end }}{{ end }}`,
+	}[form]
+	set := hxSet(nil, "/m.jet", src)
+	vars := make(VarMap)
+	vars.Set("ch", ch)
+	vars.Set("one", []int{1})
+	out, err := hxExec(set, "/m.jet", vars, nil)
+	vfReach("rendered")
+	vfAssert(err == nil, "renders")
+	want := ""
+	for i := 0; i < total; i++ {
+		want += "[" + ndItoa(i+1) + "]"
+	}
+	if total == 0 {
+		want = "E"
+	}
+	vfNote(out)
+	vfAssert(out == want, "the body runs once per element sent until the channel is closed")
 }
